@@ -19,7 +19,7 @@ IP7 == {{}, {"A"}, {"*"}, {"A", "B"}, {"Z"}, {"V6"}, {"*", "A"}}
 IP2 == {{}, {"A"}}
 FW1 == {{}, {"Ping"}}
 FB1 == {{}}
-FWt == {{}, {"*"}, {"Ping"}, {"*", "Pong"}, {"Ping", "Version"}}
+FWt == {{}, {"Ping"}, {"*", "Pong"}, {"Ping", "Version"}}
 FBt == {{}, {"Ping"}, {"Pong", "CloseQueue"}}
 Au1 == {"off"}
 \* multi-configuration universes
